@@ -53,3 +53,29 @@ def check_family(ctx, rule, family, members, min_members=None):
         ctx.check(d is None, rule, '%s/%s~%s' % (family, ref[0], lab), loc,
                   'clone members agree after normalisation (%d lines)' % len(txt.splitlines()),
                   None if d is None else 'clone family `%s`: %s (%s) differs from %s (%s) at canonical line %d: `%s`  vs  `%s`' % (family, lab, loc, ref[0], ref[1], d[0], d[2][:110], d[1][:110]))
+
+
+def temps(fn, stmts, ren=None, pointers=False):
+    """Normalisation for named temporaries: a local declared `const` inside `stmts` whose initialiser is free of
+    calls and side effects is printed as its initialiser wherever it is used, and its declaration is omitted.
+    Returns (hook, drop) for canon()/stmt_tree_text(). Hoisting a repeated pure sub-expression into such a
+    temporary (or inlining one) therefore leaves the canonical text unchanged."""
+    cand = {}
+    for s_ in stmts:
+        for v in s_.walk():
+            if v.k != 'VarDecl' or v.child('init') is None or not (v.t or '').startswith('const ') or ('*' in (v.t or '') and not pointers) or '[' in (v.t or ''):
+                continue
+            init = v.child('init')
+            if any(x.k in ('CallExpr', 'CXXMemberCallExpr', 'CXXOperatorCallExpr', 'CXXConstructExpr', 'CompoundAssignOperator') or (x.k == 'UnaryOperator' and x.op in ('++', '--', 'post++', 'post--'))
+                   or (x.k == 'BinaryOperator' and x.op == '=') for x in init.walk()):
+                continue
+            cand[v.d] = init
+
+    def hook(n):
+        if n.k == 'DeclRefExpr' and n.d in cand:
+            return expr_text(cand[n.d], ren, hook)
+        return None
+
+    def drop(st):
+        return st.k == 'DeclStmt' and all(v is None or (v.k == 'VarDecl' and v.d in cand) for v in st.c) and any(v is not None for v in st.c)
+    return hook, drop
